@@ -9,7 +9,7 @@ from smartquery.custom_types import Decimal
 from smartquery.exceptions import ParserError, OpsExecutionLimitExceededError
 from smartquery.functions import _dict_key_cast, _check_concat_size, _multiply
 from smartquery.utils import safe_cast
-from smartquery.vm_state import VMState
+from smartquery.vm_state import VMState, current_state
 
 
 NUMERIC_TYPES = (Decimal_, int, float)
@@ -254,9 +254,11 @@ class LambdaOp(Op):
         super().eval(state)
 
         def f(*args):
-            with state.names.make_scope({
+            # budget and names of the eval() in progress; the creating state only when the host calls f on its own
+            call_state = current_state.get() or state
+            with call_state.names.make_scope({
                 k.name: v for k, v in zip(self.args, args)
             }):
-                return self.expr.eval(state)
+                return self.expr.eval(call_state)
 
         return f
